@@ -32,6 +32,7 @@ N_ab   == << 97, 95, 98 >>         \* a_b
 (* 't','Z_1','a','iteration','A','_x','k','B','T' *)
 MC_Pool9 == << NmT, N_Z1, N_a, Iteration, N_A, N_ux, NmK, N_B, N_T >>
 (* thorough: adds a prefix pair (Z, Z_1), two more priority names and 'K' (not a priority name) *)
+MC_Pool9b == << NmT, N_Z1, IterationAbsChange, N_a, Iteration, N_A, IterationError, NmK, N_ux >>
 MC_Pool12 == << NmT, N_Z1, N_a, IterationAbsChange, Iteration, N_A, N_ux, NmK, N_B, N_Z, IterationError, N_T >>
 MC_Pool12b == << N_K, N_T, IterationError, N_B, NmK, N_ux, N_A, Iteration, N_ab, N_a, N_Z1, NmT >>
 
